@@ -203,7 +203,7 @@ def render_trait_generic(idx, bound_form, err):
 
 # ----------------------------------------------------------------------------------------- (B)
 
-SUBPATS = ["1", "_", "0 | 2", "eq!(&1)", "ne!(&1)"]
+SUBPATS = ["1", "_", "0 | 2", "eq!(&1)", "ne!(&1)", "0x1..=0b10"]
 # sub-patterns over Option<u8>, among them refutable bare identifiers (`None`)
 SUBPATS_OPT = ["None", "Some(1)", "Some(_)", "_", "Some(0) | None"]
 OPT_DOMAIN = [("None", "None"), ("Some(0u8)", "Some(0)"), ("Some(1u8)", "Some(1)")]
@@ -218,6 +218,9 @@ def accepts(sp, v):
         return v == 1
     if sp == "0 | 2":
         return v in (0, 2)
+    if sp == "0x1..=0b10":
+        # a range whose bounds are not written in decimal: named by its source text all the same
+        return v in (1, 2)
     if sp == "eq!(&1)":
         return v == 1
     if sp == "ne!(&1)":
